@@ -249,6 +249,63 @@ def run(ctx):
                 ctx.breaks.append({"what": "C02 %s: run o symex_go and the direct interpreter disagree on %s.%s" % (nm, d.get("process"), d.get("label")),
                                    "case": d, "impl": d.get("direct"), "model": d.get("symbolic")})
         ctx.extra["symbolic_vs_direct_interpreter"] = tot
+    # the TLA+-side translator (tools/tla2coq + Lang.v eval + symex_tla) against TLC on the shipped specs
+    if not ctx.replay:
+        import c02_tlc as T
+        import random as _random2
+        if ctx.tier == "quick":
+            tplan = [(n, {}) for n in ("shcounter", "gcounter", "loadbalancer")]
+        else:
+            tplan = [(n, {}) for n in T.TLC_SYSTEMS]
+        tseeds = [ctx.rng.randrange(1 << 30) for _ in tplan]
+        def tlc_one(job):
+            (nm, _), sd = job
+            if only and nm not in only.split(","):
+                return nm, None
+            inf = [i for s_, i in zip(systems, infos) if s_["name"] == nm]
+            sd_ = [s_ for s_ in systems if s_["name"] == nm]
+            if not inf or inf[0]["errors"] or not any("g" in l for l in inf[0]["labels"]):
+                return nm, None
+            spec = T.TLC_SYSTEMS[nm]
+            if spec["mode"] == "graph":
+                return nm, T.check_graph(inf[0], sd_[0], spec, _random2.Random(sd), 600, log)
+            heavy = nm == "raftkvs"
+            return nm, T.check_sim(inf[0], sd_[0], spec, 8, 60, 1 + sd % 5, 300 if heavy else 600, log, n_expand=(16 if heavy else 30))
+        with ThreadPoolExecutor(max_workers=(3 if ctx.tier == "quick" else 2)) as ex:
+            touts = list(ex.map(tlc_one, zip(tplan, tseeds)))
+        tot = {"systems": [], "states_checked": 0, "tlc_edges_checked": 0, "trace_steps_checked": 0, "states_expanded": 0, "disagreements": 0}
+        for nm, r in touts:
+            if r is None:
+                continue
+            diffs = r.pop("diffs", [])
+            r["disagreements"] = len(diffs)
+            per_system[nm]["tlc_validation"] = r
+            tot["systems"].append(nm)
+            tot["states_checked"] += r.get("states_checked", 0)
+            tot["tlc_edges_checked"] += r.get("edges_checked", 0) + r.get("successors_compared", 0)
+            tot["trace_steps_checked"] += r.get("steps_checked", 0)
+            tot["states_expanded"] += r.get("states_expanded", 0)
+            tot["disagreements"] += len(diffs)
+            if r.get("error"):
+                ctx.breaks.append({"what": "C02 %s: comparison of the regenerated TLA+ model with TLC did not run: %s" % (nm, r["error"][:200]), "detail": r["error"]})
+            for d in diffs[:2]:
+                ctx.breaks.append({"what": "C02 %s: the regenerated TLA+ model and TLC disagree on the successors of a state (%s)" % (
+                                       nm, "model has a step TLC rejects" if "model_only" in d else "TLC has a step the model lacks" if "tlc_only" in d else "evaluation error in the model"),
+                                   "case": {"system": nm, "where": d.get("head"), "counts_model_only/tlc_only/errors": d.get("counts")},
+                                   "model": d.get("model_only") or d.get("model_error") or d.get("model_init"), "impl": d.get("tlc_only")})
+            for i in range(r.get("states_checked", 0) + r.get("steps_checked", 0) + r.get("states_expanded", 0)):
+                ctx.add_case("tlc %s %d %d" % (nm, ctx.seed, i), False)
+        if ctx.tier == "thorough" and not only:
+            # negative control: a model built with a wrong constant must be told apart from TLC
+            nm = "shcounter"
+            inf = [i for s_, i in zip(systems, infos) if s_["name"] == nm]
+            if inf and not inf[0]["errors"]:
+                bad = dict(T.TLC_SYSTEMS[nm]); bad["consts"] = [("NUM_NODES", "VNum (2)")]
+                r = T.check_graph(inf[0], [s_ for s_ in systems if s_["name"] == nm][0], bad, _random2.Random(1), 600, log)
+                tot["negative_control_detected"] = bool(r.get("diffs"))
+                if not r.get("diffs"):
+                    ctx.breaks.append({"what": "C02: the TLC comparison did not notice a model built with a wrong constant (the comparison is not discriminating)", "detail": json.dumps(r)[:800]})
+        ctx.extra["tlc_validation"] = tot
     ctx.extra["excluded_pairs"] = [{"pair": e["go"], "reason": e["reason"]} for e in G.EXCLUDED]
     if ctx.tier == "thorough" and not ctx.replay:
         for e in G.EXCLUDED:
